@@ -873,6 +873,54 @@ def replay_read(prog, objs, expected_circ, sem_np, res):
     return out
 
 
+# ---------------------------------------------------------------- positional model (LwAddPos): field-by-field comparison
+def positional(c):
+    """the implementation's private bookkeeping in the shape of LwAddPos' positional circuit record"""
+    from lightworks.sdk.circuit import components as K
+
+    def walk(spec):
+        out = []
+        for comp in spec:
+            if isinstance(comp, K.Group):
+                out.append(("grp", (), walk(comp.circuit_spec)))
+            elif isinstance(comp, K.BeamSplitter):
+                out.append(("bs", (comp.mode_1, comp.mode_2)))
+            elif isinstance(comp, K.ModeSwaps):
+                out.append(("perm", tuple(comp.swaps.keys()), tuple(comp.swaps.values())))
+            elif isinstance(comp, K.Barrier):
+                out.append(("bar", tuple(comp.modes)))
+            else:
+                out.append(({"PhaseShifter": "ps", "Loss": "loss", "UnitaryMatrix": "u"}.get(type(comp).__name__, type(comp).__name__), (comp.mode,)))
+        return tuple(out)
+    h = c.heralds
+    return {"n": c.n_modes, "im": tuple(c._internal_modes), "inH": tuple(h["input"].items()), "outH": tuple(h["output"].items()),
+            "ops": walk(c._Circuit__circuit_spec)}
+
+
+def positional_of_spec(pc):
+    def walk(ops):
+        out = []
+        for o in ops:
+            if o[0] == "grp":
+                out.append(("grp", (), walk(o[2])))
+            elif o[0] == "perm":
+                out.append(("perm", tuple(o[1]), tuple(o[2])))
+            else:
+                out.append((o[0], tuple(o[1])))
+        return tuple(out)
+    return {"n": pc["n"], "im": tuple(pc["im"]), "inH": tuple(tuple(kv) for kv in pc["inH"]), "outH": tuple(tuple(kv) for kv in pc["outH"]),
+            "ops": walk(pc["ops"])}
+
+
+def positional_diff(c, pc):
+    """None when the object's bookkeeping equals the positional model's record, else the first differing field"""
+    a, b = positional(c), positional_of_spec(pc)
+    for k in ("n", "im", "inH", "outH", "ops"):
+        if a[k] != b[k]:
+            return "%s: implementation %r, positional model %r" % (k, a[k], b[k])
+    return None
+
+
 # ---------------------------------------------------------------- dump worker (spec -> code)
 def dump_worker(st, ctx):
     """replay one TLC state (program + expected abstract state); returns a result dict"""
@@ -919,6 +967,16 @@ def dump_worker(st, ctx):
             f += replay_read(prog, objs, circ, sm, st.get("res"))
             res["calib"] = max(res["calib"], CALIB[0])
         res["findings"] = f
+        if st.get("pc") is not None:
+            # the implementation-shaped model: a difference is DRIFT (the refinement proof of LwAddPos then no longer speaks about this
+            # code), never a violation by itself - private bookkeeping may be reorganised freely as long as the behaviour conforms
+            res["pos"] = "match"
+            for o, c in objs.items():
+                d = positional_diff(c, st["pc"][o - 1])
+                if d:
+                    res["pos"] = "object %d %s" % (o, d)
+                    res["drift"] = "positional model LwAddPos: program %r: object %d %s" % (prog, o, d)
+                    break
     except Drift as d:
         res["drift"] = str(d)
     return res
